@@ -172,6 +172,64 @@ TypedArgBase* ArgumentContainer::findArg( const ArgumentKey& key) const
 
 
 
+/// Searches for the argument with the given key in two containers that share
+/// one key space: An exact match in either container wins, an abbreviation
+/// must be unambiguous over both containers.
+///
+/// @param[in]   key       The short or long argument name to search for.
+/// @param[in]   first     The first container to search in.
+/// @param[in]   second    The second container to search in.
+/// @param[out]  in_first  Set to \c true when the returned argument is stored
+///                        in the first container.
+/// @return  Pointer to the argument handler object if the argument is
+///          defined, NULL otherwise.
+/// @throw
+///    std::runtime_error if an abbreviation matches more than one argument.
+/// @since  1.47.1, 01.10.2026
+TypedArgBase* ArgumentContainer::findArg( const ArgumentKey& key,
+   const ArgumentContainer& first, const ArgumentContainer& second,
+   bool& in_first)
+{
+
+   TypedArgBase*  part_match = nullptr;
+   bool           multiple_part_matches = false;
+
+
+   for (auto const* cont : { &first, &second})
+   {
+      for (auto const& argi : cont->mArguments)
+      {
+         if (argi == key)
+         {
+            in_first = (cont == &first);
+            return argi.data().get();
+         } // end if
+
+         if (cont->mAbbrAllowed && argi.key().startsWith( key))
+         {
+            // an exact match may still follow, so don't throw here
+            if (part_match == nullptr)
+            {
+               part_match = argi.data().get();
+               in_first = (cont == &first);
+            } else
+            {
+               multiple_part_matches = true;
+            } // end if
+         } // end if
+      } // end for
+   } // end for
+
+   if (multiple_part_matches)
+      throw runtime_error( "Long argument abbreviation '"
+                           + format::toString( key)
+                           + "' matches more than one argument");
+
+   return part_match;
+} // ArgumentContainer::findArg
+
+
+
 /// Checks that the given key is not used by an argument in this container
 /// and does not conflict with one of the stored keys.
 ///
